@@ -42,6 +42,15 @@ CHECKS = {
  "C20": ("exploration", "recording metrics collector compared with model totals at quiescence; call-site execution gate",
          "Random operation sequences with a recording collector: every counter must equal the model's total at quiescence, every emitted name must be declared and must not panic the bundled AtomicCollector; verifier histories reach all verifier metrics; emitting call sites of the current source are enumerated and each must have been executed (else inconclusive).",
          "model totals derived independently (rotations from segment IDs consumed)", "E4 model", "4 C20"),
+ "C16": ("exploration", "cluster simulation of the real verifier middleware with ground-truth judging of every delivered report",
+         "Random 3-5 node histories (appends, checkpoints, replication with arbitrary batch splits and lags, leadership changes with conflicting suffixes, middleware restarts, head truncations, configuration/barrier entries) with no corruption injected; every delivered VerificationReport is judged against the harness's copy of what the checkpoint's leader held: a node holding the range exactly must not get ErrChecksumMismatch, a node lacking part must get ErrRangeMismatch.",
+         "raft.InmemStore as the underlying store; the driver waits (by metric counts) for each report before touching the range again", "E4 vsim", "4 C16"),
+ "C17": ("exploration", "single-fault injection into cluster histories (in flight / at rest, leader / follower) with expected-detection oracle",
+         "For every (site, field, position, restart-in-range) combination one mutation is injected inside a verified checkpoint range; the delivered report for that range must carry ErrChecksumMismatch and no report may blame in-flight corruption when the node wrote exactly the leader's entries.",
+         "FNV-1a collisions not searched for; index-1 configuration entry excluded as documented", "E4 vsim", "4 C17"),
+ "C18": ("exploration", "twin-store differential testing through the middleware; parked ReportFn schedules with count-based accounting",
+         "Every call goes through verifier.LogStore over store A and directly to an identical store B; results and full stored contents compared after every call (only a leader checkpoint's empty Extensions may gain the 24-byte metadata; foreign Extensions on a checkpoint must be refused). ReportFn parked for 0-6 checkpoint arrivals incl. multi-checkpoint batches: StoreLogs must return; checkpoints_written == delivered + dropped_reports; the report following a drop must name the skipped range. Runs under the race detector.",
+         "a StoreLogs that has not returned after 20s with its goroutine inside the verifier while the harness holds ReportFn is counted as blocked", "E4 vsim", "4 C18"),
 }
 
 NOT_YET = {}
@@ -79,6 +88,7 @@ def main():
         },
         "engines": [
             {"name": "E4 model", "path": "checks/c05.go c12.go c15.go c19.go c20.go, internal/model", "serves_properties": ["C05", "C12", "C15", "C19", "C20"], "kind_free_text": "sequential/differential monitors of the real code against small executable reference models"},
+            {"name": "E4 vsim", "path": "internal/vsim, checks/c16.go c17.go c18.go", "serves_properties": ["C16", "C17", "C18"], "kind_free_text": "cluster of real verifier.LogStore middlewares over in-memory stores with harness ground truth, fault injection and parked callbacks"},
             {"name": "E1 crashsim", "path": "internal/crashsim, internal/simfs", "serves_properties": ["C01", "C02", "C03", "C04", "C13"], "kind_free_text": "production wal+segment over a crash/fault-simulating VFS+MetaStore; snapshots at every I/O boundary; crash images; model oracle"},
         ],
         "checks": checks,
